@@ -118,6 +118,13 @@ pub fn exec_op(op: &Op, handles: &mut Handles, slots: &Slots) -> String {
             }
             "dropped".to_string()
         }
+        Op::EvalBurst { j, point, mode, k } => match get(handles, *j) {
+            Some(h) => (0..*k as u32)
+                .map(|i| h.eval(*point + 24 * i, *mode, 0))
+                .collect::<Vec<_>>()
+                .join(";"),
+            None => "nohandle".to_string(),
+        },
         Op::Publish { slot, version, kind, form, text, compile } => {
             match make_handle(*kind, *form, text, *compile) {
                 Ok(h) => {
@@ -186,7 +193,7 @@ pub fn guarded(op: &Op, handles: &mut Handles, slots: &Slots) -> Obs {
 
 fn op_tag(op: &Op, w: &Workload) -> u8 {
     let mut tag = 0;
-    if let Op::Eval { .. } = op {
+    if let Op::Eval { .. } | Op::EvalBurst { .. } = op {
         tag |= TAG_SHARED_EVAL;
     }
     if let Some(j) = op.shared_index() {
